@@ -24,6 +24,7 @@ import (
 type nestRep struct {
 	comps  map[ecs.ID]bool
 	rel    bool
+	relID  ecs.ID
 	target ecs.Entity
 }
 
@@ -32,6 +33,7 @@ type nestWorld struct {
 	r        *Rng
 	ids      []ecs.ID // plain components
 	rel      ecs.ID
+	rel2     ecs.ID // a second relation component (an entity has one of the two, or none)
 	rep      map[ecs.Entity]*nestRep
 	depth    int
 	inflight []ecs.Entity // subjects of the events whose callbacks are on the stack
@@ -90,10 +92,14 @@ func (n *nestWorld) apply(w *ecs.World, e ecs.EntityEvent) {
 		}
 		delete(rp.comps, id)
 	}
-	rp.rel = rp.comps[n.rel]
+	rp.rel = rp.comps[n.rel] || rp.comps[n.rel2]
 	if rp.rel {
+		rp.relID = n.rel
+		if rp.comps[n.rel2] {
+			rp.relID = n.rel2
+		}
 		if e.Contains(event.TargetChanged) || e.Contains(event.RelationChanged) || e.Contains(event.EntityCreated) {
-			rp.target = w.Relations().Get(e.Entity, n.rel)
+			rp.target = w.Relations().Get(e.Entity, rp.relID)
 		}
 	} else {
 		rp.target = ecs.Entity{}
@@ -119,11 +125,41 @@ func (n *nestWorld) act(w *ecs.World, e ecs.EntityEvent) {
 		n.cov.N["nested_ops_depth2"]++
 	}
 	same := w.Ids(e.Entity)
-	kind := n.r.Intn(5)
+	kind := n.r.Intn(6)
 	if n.topBatch && kind >= 3 {
 		kind = n.r.Intn(3) // inside a batch's event loop only creations
 	}
 	switch kind {
+	case 5: // a new target for another, already announced entity (whichever relation component it has)
+		cands := []ecs.Entity{}
+		for _, o := range n.known() {
+			busy := false
+			for _, x := range n.inflight {
+				if x == o {
+					busy = true
+				}
+			}
+			if !busy && w.Alive(o) && (w.Has(o, n.rel) || w.Has(o, n.rel2)) {
+				cands = append(cands, o)
+			}
+		}
+		if len(cands) == 0 {
+			return
+		}
+		o := Pick(n.r, cands)
+		rel := n.rel
+		if w.Has(o, n.rel2) {
+			rel = n.rel2
+		}
+		t := ecs.Entity{}
+		if k := n.known(); n.r.Chance(0.8) {
+			if x := Pick(n.r, k); w.Alive(x) {
+				t = x
+			}
+		}
+		n.log = append(n.log, fmt.Sprintf("  nested Relations.Set(%v, %v)", o, t))
+		w.Relations().Set(o, rel, t)
+		n.cov.N["nested_target_changes"]++
 	case 0: // one more entity in the very table the event's entity lives in
 		n.log = append(n.log, fmt.Sprintf("  nested NewEntity(same %d comps)", len(same)))
 		w.NewEntity(same...)
@@ -196,7 +232,7 @@ func (n *nestWorld) compare(where string) {
 			}
 		}
 		if rp.rel {
-			if t := q.Relation(n.rel); t != rp.target {
+			if t := q.Relation(rp.relID); t != rp.target {
 				n.fail("event.replica", "%s: %v has target %v, the event stream says %v", where, e, t, rp.target)
 				q.Close()
 				return
@@ -211,21 +247,55 @@ func (n *nestWorld) compare(where string) {
 
 // nestMember is a Dispatch member that records what it receives.
 type nestMember struct {
-	n    *nestWorld
-	subs event.Subscription
-	acts bool
-	all  bool
-	got  []string
+	n     *nestWorld
+	subs  event.Subscription
+	comps *ecs.Mask // component restriction (only used for members that listen to relation events)
+	relID ecs.ID    // the relation component comps consists of
+	acts  bool
+	all   bool
+	got   []string
+	rels  []string // (unrestricted member) per event: the relation component the entity has at delivery, from the world
+}
+
+// checkRelation compares the relation component an event names as the new one with the one the entity has.
+func (n *nestWorld) checkRelation(w *ecs.World, e ecs.EntityEvent) (ecs.ID, bool) {
+	if e.Contains(event.EntityRemoved) || !w.Alive(e.Entity) {
+		return ecs.ID{}, false
+	}
+	var truth ecs.ID
+	has := false
+	if w.Has(e.Entity, n.rel) {
+		truth, has = n.rel, true
+	} else if w.Has(e.Entity, n.rel2) {
+		truth, has = n.rel2, true
+	}
+	if e.NewRelation != nil && (!has || *e.NewRelation != truth) {
+		n.fail("event.value", "event %b for %v names relation component %v as the new one, the entity's relation component is %v (has one: %v)", e.EventTypes, e.Entity, *e.NewRelation, truth, has)
+	}
+	if e.NewRelation == nil && has && e.EventTypes&(event.EntityCreated|event.RelationChanged|event.TargetChanged) != 0 {
+		n.fail("event.value", "event %b for %v names no new relation component, the entity has one", e.EventTypes, e.Entity)
+	}
+	return truth, has
 }
 
 func (m *nestMember) Subscriptions() event.Subscription { return m.subs }
-func (m *nestMember) Components() *ecs.Mask             { return nil }
+func (m *nestMember) Components() *ecs.Mask             { return m.comps }
 func (m *nestMember) Notify(w *ecs.World, e ecs.EntityEvent) {
 	if e.EventTypes&m.subs == 0 {
 		m.n.fail("subscription.foreign", "a Dispatch member subscribed to %b received an event of types %b for %v", m.subs, e.EventTypes, e.Entity)
 		return
 	}
+	truth, has := m.n.checkRelation(w, e)
 	m.got = append(m.got, fmt.Sprintf("%v:%b", e.Entity, e.EventTypes))
+	if m.all {
+		// (only pure target changes are used for the restricted members: old and new relation component are then
+		// both the one the entity has)
+		if has && e.EventTypes == event.TargetChanged {
+			m.rels = append(m.rels, fmt.Sprint(truth))
+		} else {
+			m.rels = append(m.rels, "")
+		}
+	}
 	if m.all {
 		m.n.apply(w, e)
 	}
@@ -240,6 +310,7 @@ type nestDirect struct{ n *nestWorld }
 func (l *nestDirect) Subscriptions() event.Subscription { return event.All }
 func (l *nestDirect) Components() *ecs.Mask             { return nil }
 func (l *nestDirect) Notify(w *ecs.World, e ecs.EntityEvent) {
+	l.n.checkRelation(w, e)
 	l.n.apply(w, e)
 	l.n.act(w, e)
 }
@@ -255,6 +326,7 @@ func caseNested(c *Ctx, dispatch bool) {
 		n.ids = append(n.ids, ecs.TypeID(&w, TypeOfKey(k)))
 	}
 	n.rel = ecs.TypeID(&w, TypeOfKey("R0"))
+	n.rel2 = ecs.TypeID(&w, TypeOfKey("R1"))
 	var members []*nestMember
 	if dispatch {
 		subs := []event.Subscription{event.EntityCreated, event.ComponentAdded | event.ComponentRemoved, event.ComponentRemoved,
@@ -274,6 +346,13 @@ func caseNested(c *Ctx, dispatch bool) {
 		w.SetListener(&d)
 		// the rest is added after installation
 		for _, m := range members[4:] {
+			d.AddListener(m)
+		}
+		// two members that listen to pure target changes of one relation component each
+		for _, r := range []ecs.ID{n.rel, n.rel2} {
+			mask := ecs.All(r)
+			m := &nestMember{n: n, subs: event.TargetChanged, comps: &mask, relID: r}
+			members = append(members, m)
 			d.AddListener(m)
 		}
 	} else {
@@ -334,21 +413,26 @@ func caseNested(c *Ctx, dispatch bool) {
 			case 6:
 				if len(known) > 0 {
 					t := Pick(c.R, known)
-					ids := append(subset(), n.rel)
+					rel := Pick(c.R, []ecs.ID{n.rel, n.rel2})
+					ids := append(subset(), rel)
 					n.log = append(n.log, fmt.Sprintf("%d Builder.New(%d comps, target %v)", n.step, len(ids), t))
-					ecs.NewBuilder(&w, ids...).WithRelation(n.rel).New(t)
+					ecs.NewBuilder(&w, ids...).WithRelation(rel).New(t)
 				}
 			case 7:
 				cands := []ecs.Entity{}
 				for _, e := range known {
-					if w.Has(e, n.rel) {
+					if w.Has(e, n.rel) || w.Has(e, n.rel2) {
 						cands = append(cands, e)
 					}
 				}
 				if len(cands) > 0 && len(known) > 0 {
 					e, t := Pick(c.R, cands), Pick(c.R, known)
+					rel := n.rel
+					if w.Has(e, n.rel2) {
+						rel = n.rel2
+					}
 					n.log = append(n.log, fmt.Sprintf("%d Relations.Set(%v, %v)", n.step, e, t))
-					w.Relations().Set(e, n.rel, t)
+					w.Relations().Set(e, rel, t)
 				}
 			case 8:
 				n.topBatch = true
@@ -386,15 +470,34 @@ func caseNested(c *Ctx, dispatch bool) {
 				}
 				// the documented rule without component restriction: some subscribed type occurred
 				want := []string{}
-				for _, s := range all.got {
+				for k, s := range all.got {
 					var ent string
 					var bits uint
 					fmt.Sscanf(s[lastColon(s)+1:], "%b", &bits)
 					ent = s[:lastColon(s)]
 					_ = ent
+					if m.comps != nil {
+						// pure target changes of entities whose relation component is the member's
+						if event.Subscription(bits) == event.TargetChanged && all.rels[k] == fmt.Sprint(m.relID) {
+							want = append(want, s)
+						}
+						continue
+					}
 					if event.Subscription(bits)&m.subs != 0 {
 						want = append(want, s)
 					}
+				}
+				if m.comps != nil {
+					// (events of other shapes that involve the member's relation component reach it as well)
+					kept := []string{}
+					for _, s := range m.got {
+						var bits uint
+						fmt.Sscanf(s[lastColon(s)+1:], "%b", &bits)
+						if event.Subscription(bits) == event.TargetChanged {
+							kept = append(kept, s)
+						}
+					}
+					m.got = kept
 				}
 				// (as multisets: a nested event reaches members behind the acting one before the outer event does)
 				got := append([]string{}, m.got...)
@@ -407,6 +510,7 @@ func caseNested(c *Ctx, dispatch bool) {
 			}
 			for _, m := range members {
 				m.got = m.got[:0]
+				m.rels = m.rels[:0]
 			}
 			n.cov.N["nested_dispatch_member_compares"]++
 		}
